@@ -159,6 +159,15 @@ func genName(r *rand.Rand) enc.Name {
 	if r.Intn(6) == 0 {
 		return bigName(r)
 	}
+	if r.Intn(12) == 0 {
+		// deep names: many short components (a loop bound or a pre-sized slice that is right for the
+		// usual handful of components is wrong here)
+		n := enc.Name{}
+		for k := []int{31, 32, 33, 63, 64, 65, 66, 100, 129}[r.Intn(9)]; k > 0; k-- {
+			n = append(n, enc.Component{Typ: 8, Val: randBytes(r, r.Intn(3))})
+		}
+		return n
+	}
 	n := gen.Name(r, 8, 20)
 	// type 2 (params digest) components in Interest names confuse the digest
 	// placement on purpose only rarely; keep them out of ordinary cases.
